@@ -421,10 +421,10 @@ class LowerBase:
             raise Unsupported('recursive by-value record ' + self.rec_pretty(rid))
         self.rec_emitting.add(rid)
         n = self.ast.node(rid)
-        if not n.get('completeDefinition'):
+        if not n.get('completeDefinition') or (self.rec_is_external(rid) and not self.model_record(rid)):
             # opaque: external type (std::string etc.); modelled as an opaque blob
             tag = self.rec_tag(rid)
-            self.rec_text[rid] = 'struct %s { char _opaque; }; /* opaque: %s */' % (tag, self.rec_pretty(rid))
+            self.rec_text[rid] = 'struct %s { char _opaque[64]; }; /* opaque library type: %s */' % (tag, self.rec_pretty(rid))
             self.rec_order.append(rid); self.rec_done.add(rid); self.rec_emitting.discard(rid)
             return
         lines = []
